@@ -913,6 +913,181 @@ def run_restate(ctx):
     ctx.evaluations += len(req)
 
 
+# --------------------------------------------------------------------------- stream A6: mass-conserving block mesh change
+HEAVY = ("U", "PU", "NP", "AM", "CM")
+
+
+def run_block_mesh(ctx):
+    """Block.setHeight(h, conserveMass=True, adjustList) / adjustDensity with full, proper-subset (heavy metal only, random)
+    and empty nuclide lists; Assembly.setBlockMesh with conserveMassFlag False / True / "auto" on fuel, control and shield
+    assemblies: listed nuclides / conserved components keep density x height, everything else keeps its density"""
+    import copy
+
+    from armi.materials.material import Fluid
+    from armi.reactor.flags import Flags
+
+    fx = fixtures()
+    req, chk = [], []
+    # ---- Block.setHeight
+    for _ in range(ctx.pick(60, 800)):
+        a = copy.deepcopy(ctx.rng.choice(fx["assems"]))
+        ib = ctx.rng.randrange(len(a))
+        b = a[ib]
+        nucs = sorted(b.getNuclides())
+        if not nucs:
+            continue
+        kind = ctx.rng.choice(["full", "heavy-metal", "random-subset", "random-subset", "empty", "single"])
+        if kind == "full":
+            adjust = list(nucs)
+        elif kind == "heavy-metal":
+            adjust = [n for n in nucs if n.startswith(HEAVY)]
+        elif kind == "empty":
+            adjust = []
+        elif kind == "single":
+            adjust = [ctx.rng.choice(nucs)]
+        else:
+            adjust = ctx.rng.sample(nucs, ctx.rng.randint(1, len(nucs) - 1)) if len(nucs) > 1 else list(nucs)
+        conserve = ctx.rng.random() < 0.85
+        h0 = float(b.getHeight())
+        h1 = h0 if ctx.rng.random() < 0.1 else h0 * (1.0 + ctx.rng.choice([-16, -8, -3, 2, 5, 16, 32]) / 64.0)
+        nd0 = [float(b.getNumberDensity(n)) for n in nucs]
+        case = {"assembly": a.getType(), "block": b.getType(), "mode": "setHeight", "adjustList": kind, "conserveMass": conserve,
+                "height": [h0, h1], "listed": len(adjust), "of": len(nucs)}
+        try:
+            try:
+                b.setHeight(h1, conserveMass=conserve, adjustList=list(adjust))
+                raised = False
+            except ValueError:
+                raised = True
+            adj_idx = [k for k, n in enumerate(nucs) if n in set(adjust)]
+            req.append(f"setheight {rat(h0)} {rat(h1)} {'T' if conserve else 'F'} {common.intlist(adj_idx)} "
+                       f"{common.intlist(range(len(nucs)))} {ratlist(nd0)}")
+            if raised:
+                chk.append((case, None))
+                if not (conserve and h0 != h1 and not adjust):
+                    ctx.fail("setheight-refuses", "setHeight refuses only a mass-conserving change without nuclides", case,
+                             observed="ValueError")
+                ctx.count("setHeight refused (no nuclides given)")
+                continue
+            nd1 = [float(b.getNumberDensity(n)) for n in nucs]
+            chk.append((case, (float(b.getHeight()), nd1)))
+            if float(b.getHeight()) != h1 or not fclose(float(b.p.ztop) - float(b.p.zbottom), h1, 1e-12):
+                ctx.fail("setheight-height-applied", "the block has the requested height and the assembly's elevations follow",
+                         case, observed=[float(b.getHeight()), float(b.p.zbottom), float(b.p.ztop)])
+            if conserve and h0 != h1 and not adjust:
+                ctx.fail("setheight-accepts-empty-list", "a mass-conserving height change without nuclides is refused", case)
+            for k, n in enumerate(nucs):
+                listed = conserve and h0 != h1 and n in adjust
+                if listed:
+                    if not (fclose(nd1[k] * h1, nd0[k] * h0, 1e-9) or (nd0[k] == 0.0 and nd1[k] == 0.0)):
+                        ctx.fail("setheight-listed-nuclide-conserved", "density x height of every nuclide in adjustList is "
+                                 "conserved", dict(case, nuclide=n), observed=nd1[k] * h1, expected=nd0[k] * h0)
+                elif not (fclose(nd1[k], nd0[k], 1e-12) or (nd0[k] == 0.0 and nd1[k] == 0.0)):
+                    ctx.fail("setheight-unlisted-nuclide-unchanged", "the density of every nuclide NOT in adjustList is "
+                             "unchanged (not wiped, not scaled)", dict(case, nuclide=n), observed=nd1[k], expected=nd0[k])
+            ctx.count(f"setHeight adjustList {kind}")
+            ctx.case(("setheight", a.getType(), ib, kind, conserve, h1), nontrivial=h0 != h1)
+        except common.Infra:
+            raise
+        except Exception as e:  # noqa
+            del req[len(chk):]
+            ctx.fail("remap-state-not-evaluable", "the block state can be read back and compared", case, observed=repr(e)[:300])
+    # ---- Assembly.setBlockMesh
+    snapped = [x for x in fx["assems"] if x[-1].p.topIndex != 0]
+    for _ in range(ctx.pick(40, 500)):
+        a = copy.deepcopy(ctx.rng.choice(snapped))
+        mode = ctx.rng.choice(["auto", "auto", True, False])
+        tops0 = [float(b.p.ztop) for b in a]
+        n = max(int(b.p.topIndex) for b in a) + 1
+        new_tops, z = [], 0.0
+        for t0, t1 in zip([0.0] + tops0, tops0):
+            z += (t1 - t0) * (1.0 + ctx.rng.choice([-16, -8, -4, 0, 0, 4, 8, 16]) / 64.0)
+            new_tops.append(z)
+        mesh = [None] * n
+        for b, t in zip(a, new_tops):
+            mesh[int(b.p.topIndex)] = t
+        assem_fuel = bool(a.hasFlags(Flags.FUEL))
+        before = []
+        for b in a:
+            comps = []
+            for c in b:
+                nd = c.getNumberDensities()
+                keys = sorted(nd)
+                comps.append({"name": c.name, "fuel": bool(c.hasFlags(Flags.FUEL)), "fluid": isinstance(c.material, Fluid),
+                              "keys": keys, "nd": [float(nd[k]) for k in keys]})
+            before.append({"fuel": bool(b.hasFlags(Flags.FUEL)), "h": float(b.getHeight()), "comps": comps})
+        case = {"assembly": a.getType(), "mode": "setBlockMesh", "conserveMassFlag": mode, "old_tops": tops0, "new_tops": new_tops}
+        try:
+            with common.quiet():
+                a.setBlockMesh(mesh, conserveMassFlag=mode)
+            after = []
+            for b in a:
+                comps = []
+                for c, pc in zip(b, before[len(after)]["comps"]):
+                    nd = c.getNumberDensities()
+                    comps.append([float(nd.get(k, 0.0)) for k in pc["keys"]])
+                after.append({"h": float(b.getHeight()), "zt": float(b.p.ztop), "comps": comps})
+            below = True
+            for ib, (pb, qb) in enumerate(zip(before, after)):
+                if pb["fuel"]:
+                    below = False
+                if not fclose(qb["zt"], new_tops[ib], 1e-12) or not fclose(qb["h"], new_tops[ib] - ([0.0] + new_tops)[ib], 1e-12):
+                    ctx.fail("setblockmesh-mesh-applied", "the assembly takes the requested block mesh", dict(case, block=ib),
+                             observed=[qb["h"], qb["zt"]], expected=new_tops[ib])
+                for pc, qc in zip(pb["comps"], qb["comps"]):
+                    if mode == "auto":
+                        cons = pc["fuel"] if pb["fuel"] else (assem_fuel and below and not pc["fluid"])
+                    else:
+                        cons = bool(mode)
+                    for k, d0, d1 in zip(pc["keys"], pc["nd"], qc):
+                        if cons and not fclose(d1 * qb["h"], d0 * pb["h"], 1e-11):
+                            ctx.fail("setblockmesh-conserved-component", "a component whose mass is to be conserved keeps density x "
+                                     "height for every nuclide", dict(case, block=ib, comp=pc["name"], nuclide=k),
+                                     observed=d1 * qb["h"], expected=d0 * pb["h"])
+                        if not cons and d1 != d0:
+                            ctx.fail("setblockmesh-other-component-unchanged", "a component whose mass is not to be conserved keeps "
+                                     "its densities", dict(case, block=ib, comp=pc["name"], nuclide=k), observed=d1, expected=d0)
+            m = "auto" if mode == "auto" else ("all" if mode else "off")
+            compsarg = "[" + ",".join("[" + ",".join(ratlist([int(c["fuel"]), int(c["fluid"])] + c["nd"][:3]) for c in pb["comps"]) + "]"
+                                      for pb in before) + "]"
+            req.append(f"blockmesh {m} {'T' if assem_fuel else 'F'} {common.intlist([int(pb['fuel']) for pb in before])} "
+                       f"{ratlist([pb['h'] for pb in before])} {ratlist(new_tops)} {compsarg}")
+            chk.append((case, ("mesh", [(qb["h"], [qc[:3] for qc in qb["comps"]]) for qb in after])))
+            ctx.count(f"setBlockMesh conserveMassFlag={mode}")
+            ctx.case(("blockmesh", a.getType(), str(mode), tuple(new_tops)), nontrivial=new_tops != tops0)
+        except common.Infra:
+            raise
+        except Exception as e:  # noqa
+            del req[len(chk):]
+            ctx.fail("remap-state-not-evaluable", "the assembly state can be read back and compared", case, observed=repr(e)[:300])
+    model = lean_run("Mesh", req)
+    for (case, impl), line, rq in zip(chk, model, req):
+        if impl is None:
+            ok = line == "reject"
+        elif line in ("reject", "bad-op"):
+            ok = False
+        elif impl[0] == "mesh":
+            m = common.parse_list(line)
+            ok = len(m) == len(impl[1])
+            if ok:
+                for mb, (h, comps) in zip(m, impl[1]):
+                    if not relclose(h, mb[0], 1e-11) or len(mb[1]) != len(comps):
+                        ok = False
+                        break
+                    for mc, qc in zip(mb[1], comps):
+                        if len(mc) != len(qc) or not all(relclose(v, x, 1e-11) for x, v in zip(mc, qc)):
+                            ok = False
+        else:
+            hs, nds = line.split(" ")
+            m = common.parse_list(nds)
+            ok = relclose(impl[0], hs, 1e-12) and len(m) == len(impl[1]) and all(
+                relclose(v, x, 1e-9) or (abs(v) < 1e-40 and abs(float(Fraction(x))) < 1e-40) for x, v in zip(m, impl[1]))
+        if not ok:
+            ctx.disagree("Model/Mesh.lean vs Block.setHeight / Assembly.setBlockMesh", dict(case, request=rq[:300]), line[:300],
+                         str(impl)[:300])
+    ctx.evaluations += len(req)
+
+
 # --------------------------------------------------------------------------- stream A': near-coincident points
 def run_near(ctx):
     from armi.reactor.converters import uniformMesh
@@ -1087,23 +1262,90 @@ def run_filter(ctx):
                          "than the minimum, keeps the fuel boundaries and reaches the top", case, observed=mesh)
             ctx.count("generateCommonMesh with control tops beside the fuel top ok")
             ctx.case(("common-mesh", delta, m), nontrivial=True)
-    # the public path on the two fixture cores
-    for rr in (fx["r"], fx["r2"]):
-        for m in (0.5, 2.0, 5.0, 10.0, 20.0):
-            g = uniformMesh.UniformMeshGenerator(rr, minimumMeshSize=m)
-            try:
-                with common.quiet():
-                    g.generateCommonMesh()
-            except ValueError:
-                ctx.count("generateCommonMesh refused")
-                continue
+    # the public path: generateCommonMesh / _decuspAxialMesh on whole cores; the pipeline is also run through the model
+    dreq, dchk = [], []
+
+    def common_mesh_case(rr, m, case, witness=False):
+        from armi.reactor.flags import Flags as F
+
+        g = uniformMesh.UniformMeshGenerator(rr, minimumMeshSize=m)
+        core_top = max(float(b.p.ztop) for a_ in rr.core for b in a_)
+        try:
+            with common.quiet():
+                g._computeAverageAxialMesh()
+                base = [float(x) for x in g._commonMesh]
+                fuel, ctrl = rr.core.getAssemblies(F.FUEL), rr.core.getAssemblies(F.CONTROL)
+                sets = [sorted({float(a_.getFirstBlock(F.FUEL).p.zbottom) for a_ in fuel}),
+                        sorted({float(a_.getBlocks(F.FUEL)[-1].p.ztop) for a_ in fuel}),
+                        sorted({float(a_.getFirstBlock(F.CONTROL).p.zbottom) for a_ in ctrl}),
+                        sorted({float(a_.getBlocks(F.CONTROL)[-1].p.ztop) for a_ in ctrl})]
+                g.generateCommonMesh()
             mesh = [float(x) for x in g._commonMesh]
-            case = {"core": rr.core.name if hasattr(rr.core, "name") else "core", "min": m}
-            if any(b <= a for a, b in zip(mesh, mesh[1:])):
-                ctx.fail("common-mesh-strictly-increasing", "generated common mesh is strictly increasing", case, observed=mesh)
-            if any(b - a < m - 1e-9 for a, b in zip(mesh, mesh[1:])):
-                ctx.fail("common-mesh-min-size", "generated common mesh has no cell thinner than the minimum", case, observed=mesh)
-            ctx.count("generateCommonMesh ok")
+        except ValueError:
+            ctx.count("generateCommonMesh refused")
+            mesh = None
+        except Exception as e:  # noqa
+            ctx.fail("common-mesh-unexpected-exception", "mesh generation returns a mesh or refuses with ValueError", case,
+                     observed=repr(e)[:200])
+            return None
+        try:
+            dreq.append(f"decusp {rat(m)} {ratlist(base)} {ratlist(sets[0])} {ratlist(sets[1])} {ratlist(sets[2])} {ratlist(sets[3])}")
+            dchk.append((case, "reject" if mesh is None else ratlist(mesh)))
+        except Exception:  # noqa
+            del dreq[len(dchk):]
+        if mesh is None:
+            return None
+        if any(b <= a for a, b in zip(mesh, mesh[1:])):
+            ctx.fail("common-mesh-strictly-increasing", "generated common mesh is strictly increasing", case, observed=mesh)
+        if any(b - a < m - 1e-9 for a, b in zip(mesh, mesh[1:])):
+            ctx.fail("common-mesh-min-size", "generated common mesh has no cell thinner than the minimum", case, observed=mesh)
+        if not mesh or not (mesh[0] > 0.0) or mesh[-1] != core_top:
+            key = "common-mesh-drops-core-top-control-top-just-below" if witness else "common-mesh-spans-core-height"
+            ctx.fail(key, "the generated common mesh spans the core: it ends at the top of the assemblies", case,
+                     observed=mesh, expected=core_top)
+            return None
+        # re-meshing real assemblies onto it preserves height and atoms
+        UM = uniformMesh.UniformMeshGeometryConverter
+        for a_ in ctx.rng.sample(list(rr.core), 3):
+            nucs = sorted(a_.getNuclides())[:6]
+            S = snap(a_, nucs)
+            try:
+                new = UM.makeAssemWithUniformMesh(a_, mesh, paramMapper=None, mapNumberDensities=True)
+            except Exception as e:  # noqa
+                ctx.fail("remap-raises-on-valid-mesh", "re-meshing onto the generated common mesh succeeds", case, observed=repr(e)[:200])
+                continue
+            D = snap(new, nucs)
+            if not fclose(D[-1]["zt"], S[-1]["zt"], 1e-12):
+                ctx.fail("remap-total-height", "the new assembly spans the same height", case, observed=D[-1]["zt"], expected=S[-1]["zt"])
+            for n_ in nucs:
+                x0, x1 = sum(b["nd"][n_] * b["h"] for b in S), sum(b["nd"][n_] * b["h"] for b in D)
+                if not fclose(x0, x1, 1e-11):
+                    ctx.fail("remap-atoms-conserved", f"atoms of {n_} are conserved when re-meshing onto the generated common mesh",
+                             case, observed=x1, expected=x0)
+        ctx.count("generateCommonMesh ok (spans the core, atoms conserved after re-meshing)")
+        ctx.case(("common-mesh-core", case.get("scenario"), m), nontrivial=True)
+        return mesh
+
+    for name, rr in (("reference", fx["r"]), ("detailedAxialExpansion", fx["r2"])):
+        for m in (0.5, 2.0, 5.0, 10.0, 20.0):
+            common_mesh_case(rr, m, {"scenario": "fixture core " + name, "min": m})
+    # a non-anchor candidate within the minimum just below the core top: fine top blocks (axMesh) and a larger minimum
+    with common.scratch_dir(), common.quiet():
+        _o, rn = loadTestReactor(TEST_ROOT)
+    for ax, m in ((15, 6.0), (15, 4.0), (25, 7.0), (5, 16.0), (3, 26.0)):
+        for a_ in rn.core:
+            a_[-1].p.axMesh = ax
+        common_mesh_case(rn, m, {"scenario": f"top block axMesh={ax}", "min": m})
+    for a_ in rn.core:
+        a_[-1].p.axMesh = 1
+    # excluded point (known finding): a control-rod top within the minimum BELOW the core top
+    for k, a_ in enumerate(rn.core.getAssemblies(Flags.CONTROL)):
+        a_.setBlockMesh([25.0, 50.0, 172.0, 173.5, 175.0])
+    common_mesh_case(rn, 6.0, {"scenario": "control-rod top 3 cm below the core top", "min": 6.0}, witness=True)
+    common_mesh_case(rn, 2.0, {"scenario": "control-rod top 3 cm below the core top", "min": 2.0})
+    dmodel = lean_run("Mesh", dreq)
+    ctx.compare("Model/Mesh.lean decusp vs UniformMeshGenerator._decuspAxialMesh", [c for c, _ in dchk], dmodel, [x for _, x in dchk])
+    ctx.evaluations += len(dreq)
 
 
 def oracle_filter(ctx, case, out):
@@ -1345,6 +1587,7 @@ def run(ctx):
     run_none_patterns(ctx)
     run_nuclide_sets(ctx)
     run_restate(ctx)
+    run_block_mesh(ctx)
     run_repeated(ctx)
     run_near(ctx)
     ctx.rule = ("assembly stream: (fixture assembly type, source mesh, target mesh, profile mode) with target meshes "
